@@ -134,12 +134,9 @@ def doc_level(ctx: Ctx, cs):
     yae, errae = kpx.dumps(d, encoding=kpx.Enc.agnosticExtendedKern)
     ctx.mon('agnostic_exports', 2)
     if not clef_ok:
-        ctx.mon('documents_with_clefless_note')
-        for nm, er in (('akern', erra), ('aekern', errae)):
-            if er is None:
-                ctx.violation('clefless-note-accepted', f'{nm}: a note has no clef in force but the export did not raise', case)
-            elif not isinstance(er, ValueError):
-                ctx.violation('clefless-note-wrong-exception', f'{nm}: note without clef raised {type(er).__name__}: {er} (expected ValueError)', case)
+        # the property says nothing about a note that has no clef in force: whatever happens is counted, not judged
+        ctx.mon('documents_with_clefless_note (undefined by the property)')
+        ctx.mon(f'clefless: akern {"raised " + type(erra).__name__ if erra is not None else "returned"}')
         return
     if erra is not None or errae is not None:
         er = erra or errae
